@@ -239,10 +239,27 @@ func PanicValue(v int) any {
 		return fmt.Errorf("load user: %w", context.DeadlineExceeded)
 	case 6:
 		return fmt.Errorf("inner call: %w", context.Canceled)
+	case TypedNilPanic:
+		// the typed-nil trap: a nil *nilErr inside an error interface (`var e *MyErr; return e` upstream,
+		// `panic(err)` here). The value is non-nil, its Error method dereferences the nil receiver.
+		var e *nilErr
+		var err error = e
+		return err
 	default:
 		return fmt.Errorf("read body: %w", io.EOF)
 	}
 }
+
+// nilErr is an error type whose Error method fails on a nil receiver.
+type nilErr struct{ msg string }
+
+func (e *nilErr) Error() string { return e.msg }
+
+// TypedNilPanic: a panic value whose own Error method panics (fmt verbs survive that, a direct call does not).
+const TypedNilPanic = 10
+
+// RPanicValues are the values the recovery cases draw from.
+var RPanicValues = []int{0, 1, 2, 3, 4, 5, 6, 7, WriterPanic, TypedNilPanic}
 
 // ErrBoom is panic value 0 (a package-level error, so that an application's error mapping can know it).
 var ErrBoom = errors.New("boom")
@@ -297,6 +314,8 @@ func PanicIndex(p any) int {
 		return 1
 	case customPanic:
 		return 3
+	case *nilErr:
+		return TypedNilPanic
 	case error:
 		if x == http.ErrAbortHandler {
 			return 4
@@ -400,7 +419,13 @@ type routeGroup struct{ g *route.Group }
 func toHandlers(hs []router.HandlerFunc) []route.Handler {
 	out := make([]route.Handler, len(hs))
 	for i, h := range hs {
-		out[i] = h
+		if i%2 == 0 {
+			// route.Handler is `any`: what callers of the route package pass is as often a plain function
+			// value (`g.Use(func(c *router.Context) {…})`) as a router.HandlerFunc
+			out[i] = (func(*router.Context))(h)
+		} else {
+			out[i] = h
+		}
 	}
 	return out
 }
@@ -427,11 +452,15 @@ func SegPath(p []int) string {
 // with `Group("")` — while the model keeps the (unique) tag in its path.
 const InvisibleSeg = 1000000
 
+// AliasSeg: a tag AliasSeg*k + s (k >= 1, below InvisibleSeg) is rendered like the tag s — the same URL
+// path declared a second time in another version tree — while the model keeps the two tags apart.
+const AliasSeg = 10000
+
 func seg(s int) string {
 	if s >= InvisibleSeg {
 		return ""
 	}
-	return "/s" + strconv.Itoa(s)
+	return "/s" + strconv.Itoa(s%AliasSeg)
 }
 
 const VersionHeader = "X-Api-Version"
@@ -601,13 +630,7 @@ func Build(script []Op, bo BuildOpts) (w *World, err error) {
 		case "AVU":
 			avgroups[o.A].Use(ahs(o.Hs)...)
 		case "AR":
-			var ro []app.RouteOption
-			if len(o.Hs) > 0 {
-				ro = append(ro, app.WithBefore(ahs(o.Hs)...))
-			}
-			if len(o.Hs2) > 0 {
-				ro = append(ro, app.WithAfter(ahs(o.Hs2)...))
-			}
+			ro := routeOptions(ahs(o.Hs), ahs(o.Hs2), o.Seg+o.H)
 			var rt *route.Route
 			switch o.OK {
 			case "a":
@@ -624,6 +647,32 @@ func Build(script []Op, bo BuildOpts) (w *World, err error) {
 		}
 	}
 	return w, nil
+}
+
+// routeOptions spells the before / after handlers of an app route in one of several equivalent ways: one
+// WithBefore / WithAfter each, several of them in a row, or (partly) bundled into reusable option sets
+// (app.RouteOptions, also nested). The order of the handlers is the order in which they are listed.
+func routeOptions(before, after []app.HandlerFunc, salt int) []app.RouteOption {
+	var ro []app.RouteOption
+	switch {
+	case len(before) >= 2 && salt%3 == 1:
+		k := 1 + salt%(len(before)-1)
+		ro = append(ro, app.WithBefore(before[:k]...), app.RouteOptions(app.WithBefore(before[k:]...)))
+	case len(before) >= 2 && salt%3 == 2:
+		k := 1 + salt%(len(before)-1)
+		ro = append(ro, app.RouteOptions(app.RouteOptions(app.WithBefore(before[:k]...))), app.WithBefore(before[k:]...))
+	case len(before) > 0:
+		ro = append(ro, app.WithBefore(before...))
+	}
+	switch {
+	case len(after) >= 2 && salt%2 == 1:
+		ro = append(ro, app.WithAfter(after[:1]...), app.RouteOptions(app.WithAfter(after[1:]...)))
+	case len(after) > 0 && salt%4 == 2:
+		ro = append(ro, app.RouteOptions(app.WithAfter(after...)))
+	case len(after) > 0:
+		ro = append(ro, app.WithAfter(after...))
+	}
+	return ro
 }
 
 // Result is what one request was observed to do.
